@@ -31,6 +31,12 @@ FLAGS = ["has_rc", "has_abort", "handler_p", "handler_c", "bs_p", "bs_c", "sleep
 POLICY_FIELDS = ["max_attempts", "deadline", "max_unknown", "per_class", "strat_tab", "strat_default", "has_rc",
                  "handler_p", "bs_p", "sleeper_p"]
 ENTRIES_CALL_ONLY = ["retry.ctx", "policy.ctx", "retrypolicy.ctx", "decorator"]
+# every way of reaching the retry loop without a breaker: the constructors, the context managers, RetryPolicy (sugar over Policy), the
+# decorator, RetryConfig + from_config, and a RetryPolicy configured by attribute assignment.  (The sugar entry points classify the
+# final exception once more for the absent breaker: not for projections that contain classifier calls.)
+ENTRIES_NO_BREAKER = ["retry", "retry", "retry", "retry.ctx", "retrypolicy", "retrypolicy.ctx", "decorator", "retrycfg", "retrypolicycfg",
+                      "retrypolicyattr"]
+ENTRIES_NO_BREAKER_EXECUTE = ["retry", "retry", "retrypolicy", "retrycfg", "retrypolicycfg", "retrypolicyattr"]
 
 
 # ------------------------------------------------------------------------------------------------
